@@ -1544,6 +1544,14 @@ impl Rig {
         self.rt.block_on(self.st.exchange(client, bytes, copies, broadcast))
     }
 
+    /// Several datagrams queued back to back (nothing is awaited in between: the task lives on
+    /// this thread's runtime and only runs inside `block_on`, so all of them are in the socket's
+    /// receive queue before it sees the first), then one sentinel. Returns, per position, what
+    /// arrived on that position's own client socket.
+    pub(super) fn backlog(&mut self, sends: &[(IpAddr, Vec<u8>)]) -> (Vec<Vec<Answer>>, Sentinel, usize, Option<String>) {
+        self.rt.block_on(self.st.backlog(sends))
+    }
+
     /// Hand the rotated key set (keys 1 and 2) to the task through the watch channel and wait
     /// until it is in effect (a request with a key-2 cookie is served).
     pub(super) fn rotate_keys(&mut self) -> Result<(), String> {
@@ -1686,6 +1694,49 @@ impl RigState {
         obs.after = snap(&self.stats);
         obs.finished = self.join.is_finished();
         obs
+    }
+
+    async fn backlog(&mut self, sends: &[(IpAddr, Vec<u8>)]) -> (Vec<Vec<Answer>>, Sentinel, usize, Option<String>) {
+        let port = self.port;
+        let listen = self.cfg.listen;
+        let mut buf = vec![0u8; 16384];
+        let mut stale = 0;
+        let mut err = None;
+        let before = self.stats.received_packets.get();
+        for (ip, _) in sends {
+            match self.client(*ip, false) {
+                Ok(sock) => {
+                    while sock.recv_from(&mut buf).is_ok() {
+                        stale += 1;
+                    }
+                }
+                Err(e) => err = Some(e),
+            }
+        }
+        if err.is_none() {
+            for (ip, bytes) in sends {
+                let Some(target) = listen.target(*ip, port) else {
+                    err = Some(format!("{ip} cannot reach a {} listener", listen.code()));
+                    break;
+                };
+                if let Err(e) = self.clients[&(*ip, false)].send_to(bytes, target) {
+                    err = Some(format!("send: {e}"));
+                }
+            }
+        }
+        let handled_when = if err.is_none() { before + sends.len() as u64 + 1 } else { u64::MAX };
+        let (s, _) = self.sentinel(handled_when).await;
+        let mut out = vec![];
+        for (ip, _) in sends {
+            let mut v = vec![];
+            if let Some(sock) = self.clients.get(&(*ip, false)) {
+                while let Ok((n, from)) = sock.recv_from(&mut buf) {
+                    v.push(walk(&buf[..n], from));
+                }
+            }
+            out.push(v);
+        }
+        (out, s, stale, err)
     }
 
     async fn rotate_keys(&mut self) -> Result<(), String> {
@@ -2217,7 +2268,156 @@ pub(super) fn unit_datagrams(thorough: bool, full: bool) -> Vec<Dg> {
     v
 }
 
+// ---- backlog: several requests queued before the task looks at the first ---------------
+
+/// The size alphabet of the backlog part: valid requests of 48, 48, 120, 452 and 232 bytes.
+fn backlog_alphabet() -> Vec<Req> {
+    vec![
+        Req::new(4, vec![]),
+        Req::new(3, vec![]),
+        Req::new(4, vec![F::Uid(32), F::Uid(32)]),
+        Req::new(4, vec![F::Uid(400)]),
+        Req::new(4, vec![F::Uid(32), F::Cookie(Ck::Cur), F::Auth(Au::Ok, vec![])]),
+    ]
+}
+
+/// `backlog|cfg|ip=hex|ip=hex...`
+fn backlog_trace(cfg: &Cfg, sends: &[(IpAddr, Vec<u8>)]) -> String {
+    let mut t = format!("backlog|{}", cfg.code());
+    for (ip, b) in sends {
+        t.push_str(&format!("|{}={}", ip, hexz(b)));
+    }
+    t
+}
+
+fn parse_backlog(trace: &str) -> Option<(Cfg, Vec<(IpAddr, Vec<u8>)>)> {
+    let mut it = trace.trim().split('|');
+    if it.next()? != "backlog" {
+        return None;
+    }
+    let cfg = Cfg::parse(it.next()?)?;
+    let mut sends = vec![];
+    for p in it {
+        let (ip, h) = p.split_once('=')?;
+        sends.push((ip.parse().ok()?, unhexz(h)?));
+    }
+    Some((cfg, sends))
+}
+
+/// Send the sequence, judge every reply against the request of the socket it arrived on.
+fn run_backlog(ctx: &Ctx, t: &mut Tally, rig: &mut Rig, sends: &[(IpAddr, Vec<u8>)]) -> (String, bool) {
+    let cfg = rig.st.cfg.clone();
+    let (replies, sentinel, stale, err) = rig.backlog(sends);
+    let trace = || backlog_trace(&cfg, sends);
+    t.inc("backlog.sequences");
+    t.add("evaluations", sends.len() as u64);
+    t.add("transitions", sends.len() as u64);
+    if stale > 0 || err.is_some() {
+        t.inc("machinery.backlog_problems");
+        ctx.cap_hit(&format!("backlog: stale={stale} err={err:?}"));
+    }
+    let mut text = vec![];
+    for (i, ((ip, req), got)) in sends.iter().zip(replies.iter()).enumerate() {
+        let own_id = id_offset(req).map(|o| u64::from_be_bytes(req[o..o + 8].try_into().unwrap()));
+        text.push(format!("{}:{}->[{}]", ip, req.len(), got.iter().map(|a| format!("{}:{}", a.kind.code(), a.raw.len())).collect::<Vec<_>>().join(",")));
+        if got.len() > 1 {
+            ctx.violation(
+                "C16:daemon-multiple-answers",
+                format!("backlog position {i}: socket {ip} sent one {}-byte request and received {} datagrams", req.len(), got.len()),
+                trace(),
+            );
+        }
+        for a in got {
+            t.inc("backlog.replies");
+            t.distinct.push(common::hash_of(&("backlog", cfg.code(), i, sends.iter().map(|(_, b)| b.len()).collect::<Vec<_>>())));
+            if a.raw.len() > req.len() {
+                ctx.violation(
+                    "C16:daemon-amplification",
+                    format!(
+                        "backlog position {i} of sizes {:?}: socket {ip} sent {} bytes and received a {}-byte {} reply",
+                        sends.iter().map(|(_, b)| b.len()).collect::<Vec<_>>(),
+                        req.len(),
+                        a.raw.len(),
+                        a.kind.code()
+                    ),
+                    trace(),
+                );
+            } else if a.raw.len() == req.len() {
+                t.inc("backlog.replies_exactly_request_sized");
+            }
+            if Some(a.echo) != own_id {
+                ctx.violation(
+                    "C16:daemon-reply-to-other-request",
+                    format!(
+                        "backlog position {i} of sizes {:?}: the reply on socket {ip} does not echo that socket's request id",
+                        sends.iter().map(|(_, b)| b.len()).collect::<Vec<_>>()
+                    ),
+                    trace(),
+                );
+            }
+        }
+    }
+    if sentinel != Sentinel::Ok {
+        t.inc("machinery.sentinel_failed");
+        ctx.cap_hit(&format!("sentinel {:?} after {}", sentinel, trace().chars().take(160).collect::<String>()));
+    }
+    (format!("{} sentinel={:?}", text.join(" "), sentinel), sentinel == Sentinel::Ok)
+}
+
+/// All ordered pairs (thorough: triples) of the size alphabet, each element from its own
+/// client socket, under a few configurations.
+fn backlog_part(ctx: &Ctx, thorough: bool) -> u64 {
+    let depth = if thorough { 3 } else { 2 };
+    let mut units: Vec<(Cfg, Vec<IpAddr>)> = vec![];
+    for l in if thorough { Listen::ALL.to_vec() } else { vec![Listen::Lo4, Listen::Any6] } {
+        let open = Cfg::open(l);
+        let v4 = vec![CL_A, CL_B, CL_D];
+        units.push((open.clone(), v4.clone()));
+        units.push((Cfg { deny: "all", deny_act: FilterAction::Deny, ..open.clone() }, v4.clone()));
+        units.push((Cfg { require_nts: Some(FilterAction::Deny), ..open.clone() }, v4.clone()));
+        if l == Listen::Any6 {
+            units.push((open.clone(), vec![CL_6, CL_B, CL_A]));
+        }
+    }
+    let failed = AtomicU64::new(0);
+    let alpha = backlog_alphabet();
+    common::par_for(units.len() as u64, 1, |u| {
+        let (cfg, ips) = &units[u as usize];
+        let mut t = Tally::default();
+        let mut rig = match Rig::spawn(cfg) {
+            Ok(r) if r.st.first_sentinel == Sentinel::Ok => r, // warm-up: the task is parked in its select
+            Ok(_) | Err(_) => {
+                ctx.cap_hit(&format!("backlog: could not start the server for {}", cfg.code()));
+                failed.fetch_add(1, Ordering::Relaxed);
+                return;
+            }
+        };
+        for len in 2..=depth {
+            for w in common::product(alpha.len(), len) {
+                let sends: Vec<(IpAddr, Vec<u8>)> = w.iter().enumerate().map(|(i, a)| (ips[i], alpha[*a].build(fresh_id()).bytes)).collect();
+                let (text, ok) = run_backlog(ctx, &mut t, &mut rig, &sends);
+                if w[0] == 3 && w[1] == 0 {
+                    ctx.sample(format!("backlog {} {}", cfg.code(), text));
+                }
+                if !ok {
+                    failed.fetch_add(1, Ordering::Relaxed);
+                    t.flush(ctx);
+                    return;
+                }
+            }
+        }
+        t.flush(ctx);
+    });
+    failed.load(Ordering::Relaxed)
+}
+
 fn replay(ctx: &Ctx, trace: &str) -> String {
+    if let Some((cfg, sends)) = parse_backlog(trace) {
+        return match Rig::spawn(&cfg) {
+            Err(e) => format!("rig: {e}"),
+            Ok(mut rig) => run_backlog(ctx, &mut Tally::default(), &mut rig, &sends).0,
+        };
+    }
     let Some(case) = Case::parse(trace) else {
         return format!("unparsable trace {trace}");
     };
@@ -2245,7 +2445,10 @@ fn check() {
         "daemon level: every datagram of the byte-level grammar (plain v3/v4/v5, 1..12 unique-identifier fields of every wire \
          size 4..36, NTS layouts cookie x authenticator x encrypted part x identifier, non-client modes, broken framing), every \
          prefix 0..=len of the truncation bases and 1024/1025/1500/9000-byte datagrams is sent over a real UDP socket to the real \
-         ServerTask under every configuration x client address; a case is distinct and non-trivial when the task answered it",
+         ServerTask under every configuration x client address; a case is distinct and non-trivial when the task answered it. \
+         Backlog part: every ordered pair (thorough: and triple) of five valid requests of 48/48/120/452/232 bytes, each from its own \
+         client socket and address, queued back to back before the task runs; every reply must fit and echo the request of the \
+         socket it arrives on",
     );
     ctx.assume("loopback delivers the task's answer to the client socket before the sentinel's answer reaches the sentinel socket (same sender thread, in-order softirq); a stale datagram found later is reported as CAP");
     ctx.assume("the harness' own AES-SIV is correct (known-answer tests + the real server authenticates its requests: answers.nts_authenticated > 0)");
@@ -2313,7 +2516,7 @@ fn check() {
         }
         t.flush(&ctx);
     });
-    let failed = failed_units.load(Ordering::Relaxed);
+    let failed = failed_units.load(Ordering::Relaxed) + backlog_part(&ctx, thorough);
     ctx.set("machinery.failed_units", failed);
     ctx.exhaustive(failed == 0);
     ctx.finish();
